@@ -15,8 +15,8 @@ namespace ratio
 
     inline smt::var get_sigma() const noexcept { return sigma; } // returns the variable that represents the state of the atom: if the variable is true, the atom is active; if the variable is false, the atom is unified; if the variable is undefined, the atom is not justified..
 
-    smt::lit new_eq(item &i) noexcept override;
-    bool equates(item &i) noexcept override;
+    smt::lit new_eq(item &i) override;
+    bool equates(item &i) override;
 
     smt::json to_json() const noexcept override;
 
